@@ -25,7 +25,7 @@ import (
 )
 
 type Op struct {
-	M  string   `json:"m"` // put delete append remove import removekeys acquire release
+	M  string   `json:"m"` // put delete append remove import removekeys acquire release reopen
 	K  int      `json:"k"` // 1-based key index
 	V  string   `json:"v"`
 	C  string   `json:"c"`
@@ -188,6 +188,13 @@ func main() {
 					tok = 4242
 				}
 				err = kv.Release(ctx, key(op.K), tok)
+			case "reopen": // clean Close (checkpoint, log removed) and New in the same process
+				kv.Close()
+				kv, err = sqlite3.New(sqlite3.Config{Logger: zap.NewNop(), HashFn: chord.Hash, DataDir: h.Dir})
+				if err != nil {
+					out.WriteString(fmt.Sprintf("ACK %d error:reopen: %v\n", n+1, err))
+					os.Exit(0)
+				}
 			default:
 				panic("op " + op.M)
 			}
